@@ -56,5 +56,11 @@ class UpdateNodeAttrs(BasicAction):
     def _apply(self) -> None:
         """Set new attributes"""
         for attr, value in self.new_attrs.items():
-            self.tracks._set_node_attr(self.node, attr, value)
+            if value is None:
+                # the attribute was absent (e.g. when undoing the first update of a
+                # key): remove it again instead of storing None, which exporters
+                # cannot serialize
+                self.tracks.graph.nodes[self.node].pop(attr, None)
+            else:
+                self.tracks._set_node_attr(self.node, attr, value)
         self.tracks.notify_annotators(self)
